@@ -513,6 +513,10 @@ func (c *contentValidator) validateReadKeyChange(ch *aclrecordproto.AclReadKeyCh
 	if !c.verifier.ShouldValidate() {
 		return nil
 	}
+	if ch == nil {
+		// the sub-message may be absent from a hostile record
+		return ErrIncorrectReadKey
+	}
 	_, err = c.keyStore.PubKeyFromProto(ch.MetadataPubKey)
 	if err != nil {
 		return ErrNoMetadataKey
